@@ -715,7 +715,18 @@ func (fc *FnCtx) convert(st *State, x *ssa.Convert) Val {
 	name := "conv." + fc.TE.Key(x.X.Type()) + "." + fc.TE.Key(x.Type())
 	fc.TE.G.DeclareFun(name, []string{fc.TE.SortOf(x.X.Type())}, fc.TE.SortOf(x.Type()))
 	fc.notes.Assumed["conversion "+x.X.Type().String()+" -> "+x.Type().String()+" is an uninterpreted function"] = true
-	return tv(app(fc.TE.SortOf(x.Type()), name, v))
+	r := app(fc.TE.SortOf(x.Type()), name, v)
+	if fb, ok := x.X.Type().Underlying().(*types.Basic); ok && fb.Info()&types.IsString != 0 {
+		if _, isSlice := x.Type().Underlying().(*types.Slice); isSlice && !fc.TE.BV {
+			// []byte(s) / []rune(s) of an empty string is empty; []byte(s) has len(s) bytes
+			ln := app(SInt, "sl_len", r)
+			fc.S.Assume(app(SBool, ">=", ln, IntLit(0)), "length of a converted string")
+			if es, ok := x.Type().Underlying().(*types.Slice).Elem().Underlying().(*types.Basic); ok && es.Kind() == types.Uint8 {
+				fc.S.Assume(Eq(ln, fc.E.strLen(fc.TE, v)), "[]byte(s) has len(s) bytes")
+			}
+		}
+	}
+	return tv(r)
 }
 
 func convMayWrap(from, to *types.Basic) bool {
